@@ -9,6 +9,7 @@ use std::fmt::Write as _;
 fn main() {
     println!("cargo:rerun-if-changed=build.rs");
     println!("cargo:rerun-if-changed=gen_c08.rs");
+    println!("cargo:rerun-if-changed=gen_c07.rs");
     let thorough = std::env::var("CARGO_FEATURE_THOROUGH").is_ok();
     let out = std::env::var("OUT_DIR").unwrap();
     let (code, record) = c19::generate(thorough);
@@ -17,10 +18,15 @@ fn main() {
     let (code, record) = c08::generate(thorough);
     std::fs::write(format!("{out}/c08_gen.rs"), code).unwrap();
     std::fs::write(format!("{out}/c08_record.json"), serde_json::to_string(&record).unwrap()).unwrap();
+    let (code, record) = c07::generate(thorough);
+    std::fs::write(format!("{out}/c07_gen.rs"), code).unwrap();
+    std::fs::write(format!("{out}/c07_record.json"), serde_json::to_string(&record).unwrap()).unwrap();
 }
 
 #[path = "gen_c08.rs"]
 mod c08;
+#[path = "gen_c07.rs"]
+mod c07;
 
 mod c19 {
     use super::*;
